@@ -12,7 +12,9 @@ from common import fx, unfx, enc_list, close, rq
 REQUIRED = ['ipsw_saturated', 'gtransport_saturated', 'aipsw_outcome_saturated', 'aipsw_weights_balanced',
             'aipsw_weights_saturated_unstab', 'rd_rr_def', 'target_outcomes_irrelevant', 'aipsw_fit_generated', 'ipsw_fit_generated',
             'gtransport_fit_generated', 'gtransport_fit_saturated', 'gtransport_fit_target_outcomes_irrelevant',
-            'ipsw_sampling_weight_generated', 'aipsw_sampling_weight_generated', 'treatment_site_generated']
+            'ipsw_sampling_weight_generated', 'aipsw_sampling_weight_generated', 'treatment_site_generated',
+            # Props/C16_Observers.lean (round 4): in the tables derived from the source, summary() assigns no state
+            'ipsw_reporting_methods_observe', 'gtransport_reporting_methods_observe', 'aipsw_reporting_methods_observe']
 RULE = ('random combined data sets: a study sample (1-2 categorical modifiers, <= 8 strata, both arms and both outcome '
         'values in every stratum) plus a target sample with at least one row per stratum; target rows carry A = NaN, and '
         'Y = NaN or junk values (both variants are run and must agree); cells: IPSW+treatment model, GTransportFormula, '
